@@ -101,6 +101,13 @@ fn tsec(t: Option<SystemTime>) -> String {
     }
 }
 
+#[cfg(feature = "embed")]
+#[derive(rust_embed::RustEmbed, Debug)]
+#[folder = "/var/tmp/verif-embed"]
+struct DynEmbed;
+
+const EMBED_DIR: &str = "/var/tmp/verif-embed";
+
 enum Handle {
     W(Box<dyn SeekAndWrite + Send>),
     R(Box<dyn SeekAndRead + Send>),
@@ -137,6 +144,8 @@ fn exec(st: &mut St, t: &[&str]) -> String {
                     st.tmp.push(d.clone());
                     VfsPath::new(PhysicalFS::new(d))
                 }
+                #[cfg(feature = "embed")]
+                "embed" => VfsPath::new(EmbeddedFS::<DynEmbed>::new()),
                 "alt" => VfsPath::new(AltrootFS::new(p(st, t[3]))),
                 "ovl" => {
                     let layers: Vec<VfsPath> = t[3..].iter().map(|k| p(st, k)).collect();
@@ -145,6 +154,13 @@ fn exec(st: &mut St, t: &[&str]) -> String {
                 x => panic!("SCRIPT: unknown fs kind {}", x),
             };
             st.paths.insert(name, root);
+            "ok".into()
+        }
+        "embedfile" => {
+            let rel = String::from_utf8(unhex(t[1])).unwrap();
+            let full = std::path::Path::new(EMBED_DIR).join(rel);
+            std::fs::create_dir_all(full.parent().unwrap()).unwrap();
+            std::fs::write(full, unhex(t[2])).unwrap();
             "ok".into()
         }
         "arm" => { let mut c = st.ctls[t[1]].lock().unwrap(); let k: usize = t[2].parse().unwrap(); c.fail_at = Some(c.count + k); "ok".into() }
@@ -318,6 +334,10 @@ fn main() {
     let args: Vec<String> = std::env::args().collect();
     let text = std::fs::read_to_string(&args[1]).expect("script file");
     let mut st = St { paths: HashMap::new(), handles: HashMap::new(), ctls: HashMap::new(), tmp: vec![] };
+    if cfg!(feature = "embed") {
+        let _ = std::fs::remove_dir_all(EMBED_DIR);
+        let _ = std::fs::create_dir_all(EMBED_DIR);
+    }
     let mut out = String::new();
     let all_lines: Vec<&str> = text.lines().collect();
     let mut skip_until = 0usize;
@@ -351,6 +371,10 @@ fn main() {
             continue;
         }
         if line == "reset" {
+            if cfg!(feature = "embed") {
+                let _ = std::fs::remove_dir_all(EMBED_DIR);
+                let _ = std::fs::create_dir_all(EMBED_DIR);
+            }
             st.handles.clear(); st.paths.clear(); st.ctls.clear();
             for d in st.tmp.drain(..) { let _ = std::fs::remove_dir_all(d); }
             out.push_str(&format!("{} reset\n", i + 1));
